@@ -576,13 +576,11 @@ fn main() {
 
 /// thorough tier: histories of the same shape under Miri (the implementation-side UB oracle)
 fn miri_stage(ctx: &mut Ctx) {
-    let dir = std::path::Path::new(env!("CARGO_MANIFEST_DIR")).join("miri_utils");
-    if !dir.exists() {
+    let Some(dir) = miri_crate_dir() else {
         ctx.notes.push("miri stage: driver crate missing".into());
         return;
-    }
+    };
     let seed = ctx.rng.next() >> 1;
-    let _ = std::fs::copy("/repo/Cargo.lock", dir.join("Cargo.lock"));
     let out = std::process::Command::new("cargo")
         .args(["+nightly", "miri", "run", "--offline", "--quiet", "--bin", "idset_miri"])
         .current_dir(&dir)
@@ -607,4 +605,30 @@ fn miri_stage(ctx: &mut Ctx) {
             }
         }
     }
+}
+
+/// The Miri driver crate lives next to this crate's sources; against a scratch copy of the repository
+/// (VERIF_REPO) a copy whose path dependency points at that copy is written next to the alternate harness.
+fn miri_crate_dir() -> Option<std::path::PathBuf> {
+    let manifest = std::path::Path::new(env!("CARGO_MANIFEST_DIR"));
+    let src = std::fs::canonicalize(manifest.join("src")).ok()?;
+    let real = src.parent()?.join("miri_utils");
+    if !real.exists() {
+        return None;
+    }
+    let repo = std::env::var("VERIF_REPO").unwrap_or_else(|_| "/repo".into());
+    let repo = repo.trim_end_matches('/').to_string();
+    let dir = if repo == "/repo" {
+        real
+    } else {
+        let alt = manifest.join("miri_utils");
+        std::fs::create_dir_all(alt.join("src/bin")).ok()?;
+        for f in ["Cargo.toml", "src/lib.rs", "src/bin/arena_miri.rs", "src/bin/idset_miri.rs"] {
+            let text = std::fs::read_to_string(real.join(f)).ok()?.replace("/repo/", &format!("{repo}/"));
+            std::fs::write(alt.join(f), text).ok()?;
+        }
+        alt
+    };
+    let _ = std::fs::copy(format!("{repo}/Cargo.lock"), dir.join("Cargo.lock"));
+    Some(dir)
 }
